@@ -66,6 +66,21 @@ func (c *ctx) streamR() error {
 			mu.Unlock()
 		}
 		d := time.Duration(int64(gen.Duration(c.r)))
+		// two malformed inputs (truncation / corruption of the valid bytes): every goroutine also decodes
+		// one of them and must get exactly the error the sequential call gives
+		badIn := [2][]byte{gen.Mutate(c.r, data), gen.Mutate(c.r, data)}
+		if len(data) > 1 {
+			badIn[0] = append([]byte(nil), data[:1+c.r.Intn(len(data)-1)]...)
+		}
+		var seqErr [2]string
+		for k := range badIn {
+			m := l.New[name]()
+			if et, b := realUnmarshal(append([]byte(nil), badIn[k]...), m); b == "" {
+				seqErr[k] = et
+			} else {
+				seqErr[k] = "PANIC " + b
+			}
+		}
 		for g := 0; g < G; g++ {
 			wg.Add(1)
 			go func(g int) {
@@ -87,6 +102,19 @@ func (c *ctx) streamR() error {
 							report("concurrent Unmarshal error: " + err.Error())
 						} else if got := l.Reg.FromStruct(name, m).String(); got != want {
 							report("concurrent Unmarshal differs: " + firstDiff(want, got))
+						}
+					}
+					// failing decodes: the error is this call's own
+					{
+						k := (g / 2) % 2
+						m := l.New[name]()
+						err := picobuf.Unmarshal(append([]byte(nil), badIn[k]...), m)
+						got := ""
+						if err != nil {
+							got = err.Error()
+						}
+						if !strings.HasPrefix(seqErr[k], "PANIC") && got != seqErr[k] {
+							report(fmt.Sprintf("concurrent Unmarshal of a malformed input reports %q, sequential call reports %q", got, seqErr[k]))
 						}
 					}
 					// time conversions share nothing either
